@@ -4,7 +4,7 @@ import Fundraising.Proofs.VestingLemmas
   `ReleaseVestingPayingCoin` (`releaseVesting` / `releaseLoop`) preserves `WF` and
   `BankNonneg`.
 -/
-namespace Fundraising
+namespace Fundraising.WFInv
 
 /-- with strictly smaller keys in front, `upsertBy` replaces the entry with the same key
     in place -/
@@ -152,7 +152,7 @@ theorem releaseLoop_wf {aid : Nat} {auc : Acc} {n : Nat} :
       rw [view_ok_iff, f1.views, hv] at hv1
       have hv1 : vc = v1 := Option.some.inj hv1
       subst hv1
-      have hw1 : WF c1.s := hw.frame f1
+      have hw1 : WF c1.s := WF.frame f1 hw
       have hlt := pre_lt V (Or.inl hst) hvq
       have hset : setVQ vc.vqs { q with released := true }
           = pre ++ { q with released := true } :: rest := by
@@ -236,4 +236,4 @@ theorem releaseVesting_wf {c c' : Ctx} {aid : Nat} {v : AView}
   subst hv0
   exact releaseLoop_wf v.vqs c c' 0 [] v h hw hv (by simp) (by simp) (by simp) (fun _ => hst)
 
-end Fundraising
+end Fundraising.WFInv
